@@ -22,12 +22,19 @@ Theorem C15_getitem_every_path t p v : twf t = true -> In (p, v) (tree_items t) 
 Proof. intros W. exact (getitem_items t W p v). Qed.
 Print Assumptions C15_getitem_every_path.
 
-(* tree_update(t, u, ignore) never raises on dict-rooted operands whose update has distinct keys and
-   non-empty branches, and returns the recursive merge pmerge *)
-Theorem C15_update_is_merge cow t u ign : is_node t = true -> is_node u = true -> twf u = true -> pfull (shape_of u) = true ->
-  exists r w, tree_update cow t u ign = Some (r, w) /\ shape_of r = pmerge ign (shape_of t) (shape_of u).
-Proof. exact (update_is_merge cow t u ign). Qed.
+(* tree_update(t, u, ignore) never raises on dict-rooted operands (u with distinct keys) and returns merge_spec:
+   the recursive merge pmerge of t with u after removing every branch of u that holds no leaf (prune) - an empty
+   dict in u, at any depth, creates no path and replaces nothing, not even a leaf of t; u = {} gives t.
+   No hypothesis on the shape of u: all pairs (t, u). *)
+Theorem C15_update_is_merge cow t u ign : is_node t = true -> is_node u = true -> twf u = true ->
+  exists r w, tree_update cow t u ign = Some (r, w) /\ shape_of r = merge_spec ign (shape_of t) (shape_of u).
+Proof. exact (update_is_merge_general cow t u ign). Qed.
 Print Assumptions C15_update_is_merge.
+
+(* when every branch of u is non-empty nothing is pruned: merge_spec is the plain recursive merge *)
+Theorem C15_merge_spec_on_full ign t u : pfull u = true -> merge_spec ign t u = pmerge ign t u.
+Proof. intros F. unfold merge_spec. rewrite (prune_full u F). reflexivity. Qed.
+Print Assumptions C15_merge_spec_on_full.
 
 (* what the recursive merge is, key by key: u's leaves override (unless listed in ignore and the key exists),
    branches on both sides are merged, a branch of u replaces a leaf of t or is added, the rest of t is kept *)
@@ -44,18 +51,18 @@ Theorem C15_merge_spec ign kt ku k : nodup_keys ku = true ->
 Proof. exact (pmerge_lookup ign kt ku k). Qed.
 Print Assumptions C15_merge_spec.
 
-Theorem C15_update_idem cow t ign : is_node t = true -> twf t = true -> pfull (shape_of t) = true ->
+Theorem C15_update_idem cow t ign : is_node t = true -> twf t = true ->
   exists r w, tree_update cow t t ign = Some (r, w) /\ shape_of r = shape_of t.
 Proof.
-  intros N W F. destruct (update_is_merge cow t t ign N N W F) as (r & w & E & S).
-  exists r, w. split; [exact E|]. rewrite S. apply pmerge_idem. rewrite pwf_shape. exact W.
+  intros N W. destruct (update_is_merge_general cow t t ign N N W) as (r & w & E & S).
+  exists r, w. split; [exact E|]. rewrite S. apply merge_idem. rewrite pwf_shape. exact W.
 Qed.
 Print Assumptions C15_update_idem.
 
 Theorem C15_update_empty cow t o c ign : is_node t = true ->
   exists r w, tree_update cow t (Node o c []) ign = Some (r, w) /\ shape_of r = shape_of t.
 Proof.
-  intros N. destruct (update_is_merge cow t (Node o c []) ign N eq_refl eq_refl eq_refl) as (r & w & E & S).
+  intros N. destruct (update_is_merge_general cow t (Node o c []) ign N eq_refl eq_refl) as (r & w & E & S).
   exists r, w. split; [exact E|]. rewrite S. destruct t; [discriminate | reflexivity].
 Qed.
 Print Assumptions C15_update_empty.
@@ -129,3 +136,13 @@ Proof.
   split; [simpl; repeat constructor; simpl; intuition discriminate|].
   split; [simpl; repeat constructor; simpl; intuition discriminate|]. vm_compute. reflexivity.
 Qed.
+
+(* non-vacuity of the general merge: leafless branches of u (empty, nested-empty, over a leaf of t, new key) change nothing *)
+Example C15_empty_branch_example :
+  let t := Node false 0 [("a", Leaf (VNum false 2)); ("b", Node false 0 [("c", Leaf (VNum false 4))])] in
+  let u := Node false 0 [("a", Node false 0 []); ("b", Node false 0 [("d", Node false 0 [("e", Node false 0 [])]); ("c", Leaf (VNum false 6))]); ("z", Node false 0 [])] in
+  twf u = true /\ pfull (shape_of u) = false /\
+  option_map (fun r => shape_of (fst r)) (tree_update true t u []) =
+    Some (PNode [("a", PLeaf (VNum false 2)); ("b", PNode [("c", PLeaf (VNum false 6))])]) /\
+  merge_spec [] (shape_of t) (shape_of u) = PNode [("a", PLeaf (VNum false 2)); ("b", PNode [("c", PLeaf (VNum false 6))])].
+Proof. vm_compute. repeat split; reflexivity. Qed.
